@@ -176,7 +176,7 @@ typedef struct S_union_frg__arg frg_arg;
 #define NSLOT 10
 static frg_arg arg_cache[12];
 static uint64_t slots[NSLOT];
-static char fmt[64], strarg[3][SLEN + 3];
+static char fmt[100], strarg[3][SLEN + 3];
 
 /* the System V x86-64 va_list after the register save area is exhausted: every variadic argument occupies one 8-byte slot
  * of the overflow area (int-class arguments in the low bytes, upper bytes unspecified) */
@@ -215,7 +215,7 @@ static void choose_dir(struct dir *d, int j) {
 	d->left = flags & 1; d->plus = (flags >> 1) & 1; d->space = (flags >> 2) & 1; d->alt = (flags >> 3) & 1; d->zero = (flags >> 4) & 1; d->group = (flags >> 5) & 1; d->rev = (flags >> 6) & 1;
 	d->wmode = in_range(0, 2); d->width = in_range(1, WMAX); d->pmode = in_range(0, 3); d->prec = in_range(0, WMAX); d->lm = in_range(0, LM_N - 1); d->conv = in_range(0, CV_N - 1);
 	d->pos = in_range(0, 3);
-	PIN(d->wmode, j, P_WMODE); PIN(d->width, j, P_WIDTH); PIN(d->pmode, j, P_PMODE); PIN(d->prec, j, P_PREC); PIN(d->lm, j, P_LM); PIN(d->conv, j, P_CONV); PIN(d->pos, j, P_POS);
+	PIN(d->wmode, j, P_WMODE); if(d->wmode == 1) PIN(d->width, j, P_WIDTH); PIN(d->pmode, j, P_PMODE); if(d->pmode == 1) PIN(d->prec, j, P_PREC); PIN(d->lm, j, P_LM); PIN(d->conv, j, P_CONV); PIN(d->pos, j, P_POS);
 #ifdef VP_NATIVE
 	if(getenv("VP_RANDOM")) {      /* random validation vectors: fold into the combinations ISO C defines */
 		if(d->conv == CV_d || d->conv == CV_i || d->conv == CV_u) d->alt = 0; else d->group = 0;
@@ -265,6 +265,13 @@ static void choose_format(int need_defined) {
 	for(int i = 0; i < NSLOT; i++) VP_INPUT(slots[i]);
 	for(int j = 0; j <= NDIR; j++) {
 		sep_on[j] = in_bit(); VP_INPUT(sep_ch[j]);
+#ifdef SEPS     /* case split: which of the literal bytes before / between / after the directives are present (bit j) */
+		VP_NATIVE_ONLY(if(getenv("VP_RANDOM")) sep_on[j] = ((SEPS) >> j) & 1;)
+		VP_ASSUME(sep_on[j] == (((SEPS) >> j) & 1)); sep_on[j] = ((SEPS) >> j) & 1;
+		/* and their content: a solver-chosen byte would make "is this byte a %?" a symbolic branch of the parser (does not finish) */
+		VP_NATIVE_ONLY(if(getenv("VP_RANDOM")) sep_ch[j] = (char)("x:-."[j & 3]);)
+		VP_ASSUME(sep_ch[j] == "x:-."[j & 3]); sep_ch[j] = "x:-."[j & 3];
+#endif
 		VP_NATIVE_ONLY(if(getenv("VP_RANDOM") && (sep_ch[j] == 0 || sep_ch[j] == '%')) sep_ch[j] = 'a' + j;)
 		VP_ASSUME(sep_ch[j] != 0 && sep_ch[j] != '%');
 	}
@@ -275,9 +282,12 @@ static void choose_format(int need_defined) {
 		VP_NATIVE_ONLY(if(getenv("VP_RANDOM")) { if(!positional) d->pos = 0; else { if(d->pos == 0) d->pos = 1 + j; if(d->conv == CV_pct) d->conv = CV_d; } })
 		VP_ASSUME(positional ? (d->pos >= 1 || d->conv == CV_pct) : d->pos == 0);     /* numbered and unnumbered directives must not be mixed (POSIX) */
 		arg_w[j] = arg_p[j] = arg_v[j] = -1;
-		if(d->wmode == 2) { arg_w[j] = nargs++; d->width = (int)(int32_t)slots[arg_w[j]];
+		/* a * argument may be pinned too (PINS width / prec with wmode / pmode 2): the sign test the parser performs on it is then decided during symbolic execution */
+		if(d->wmode == 2 && pins[j][P_WIDTH] != NOPIN) { VP_NATIVE_ONLY(if(getenv("VP_RANDOM")) slots[nargs] = (uint32_t)pins[j][P_WIDTH];) VP_ASSUME(slots[nargs] == (uint32_t)pins[j][P_WIDTH]); slots[nargs] = (uint32_t)pins[j][P_WIDTH]; }
+		if(d->wmode == 2) { arg_w[j] = nargs++; d->width = pins[j][P_WIDTH] != NOPIN ? pins[j][P_WIDTH] : (int)(int32_t)slots[arg_w[j]];
 			VP_NATIVE_ONLY(if(getenv("VP_RANDOM")) { d->width = (int)(slots[arg_w[j]] % (2 * WMAX + 1)) - WMAX; slots[arg_w[j]] = (slots[arg_w[j]] & 0xFFFFFFFF00000000ull) | (uint32_t)d->width; }) }
-		if(d->pmode == 2) { arg_p[j] = nargs++; d->prec = (int)(int32_t)slots[arg_p[j]];
+		if(d->pmode == 2 && pins[j][P_PREC] != NOPIN) { VP_NATIVE_ONLY(if(getenv("VP_RANDOM")) slots[nargs] = (uint32_t)pins[j][P_PREC];) VP_ASSUME(slots[nargs] == (uint32_t)pins[j][P_PREC]); slots[nargs] = (uint32_t)pins[j][P_PREC]; }
+		if(d->pmode == 2) { arg_p[j] = nargs++; d->prec = pins[j][P_PREC] != NOPIN ? pins[j][P_PREC] : (int)(int32_t)slots[arg_p[j]];
 			VP_NATIVE_ONLY(if(getenv("VP_RANDOM")) { d->prec = (int)(slots[arg_p[j]] % (WMAX + 3)) - 2; slots[arg_p[j]] = (slots[arg_p[j]] & 0xFFFFFFFF00000000ull) | (uint32_t)d->prec; }) }
 		if(d->conv != CV_pct) arg_v[j] = d->pos ? d->pos - 1 : nargs++;
 		VP_ASSUME(need_defined ? dir_defined(d) : dir_syntax(d));
@@ -406,7 +416,7 @@ void harness_opts(void) {
 	else n = (int)c19_ints((uint8_t)cv_chr[d->conv], lm_szmod[d->lm], flags, d->width, d->pmode != 0, d->prec, arg_cache, &ap);
 	CHECK_LENGTH(n, "do_printf_*: number of bytes produced equals ISO C");
 	VP_WITNESS(0, "conversion formatted and compared");
-	VP_WITNESS(!(d->width > 3 && nput == d->width), "a padded field is reachable");
+	VP_WITNESS(nput == 0, "a non-empty output is reachable");
 	OBSERVE_OUT(); VP_NATIVE_ONLY(if(!vp_quiet) printf("conv=%c\n", cv_chr[d->conv]);)
 }
 
@@ -430,12 +440,14 @@ void harness_poparg(void) {
 	VP_ASSUME(positional);
 #endif
 	for(int i = 0; i < NA + 1; i++) VP_INPUT(slots[i]);
-	{ uint64_t junk; VP_INPUT(junk); uint64_t *c = (uint64_t *)arg_cache; for(int i = 0; i < 2 * NA; i++) c[i] = junk; }   /* the cache starts with arbitrary contents */
 	va_tag ap; mk_va(&ap);
 	c19_pop_init(&VS, arg_cache, &ap);
 	int seq = 0, num = 0, cw[NA], widened = 0;
 	for(int step = 0; step < K; step++) {
 		int kind = in_range(0, 8), pos = in_range(0, NA - 1);
+#ifdef KINDS    /* case split: the type requested at every step (a solver-chosen type makes every step a 9-way dispatch over pop_arg instantiations) */
+		{ static const int kinds[] = KINDS; VP_ASSUME(kind == kinds[step]); kind = kinds[step]; }
+#endif
 		uint64_t got, want;
 		if(!positional) {
 			VP_PRE_OR(seq < NA, break);
@@ -466,6 +478,9 @@ void harness_digits(void) {
 	uint64_t number; VP_INPUT(number);
 	int negative = in_bit(), zero = in_bit(), left = in_bit(), plus = in_bit(), space = in_bit(), caps = in_bit();
 	int width = in_range(0, WMAX), precision = in_range(0, WMAX), via = in_range(0, 2);
+#ifdef VIA
+	VP_ASSUME(via == VIA); via = VIA;
+#endif
 #if RADIX == 10
 	VP_NATIVE_ONLY(if(getenv("VP_RANDOM")) number %= DMAX;)
 	VP_ASSUME(number < DMAX);
